@@ -122,10 +122,10 @@ def add_ecs(cube, ecs, shape, voff=0.0, ishift=None):
     return cube
 
 
-def build_cube(shape, fam, wseed, ecs):
+def build_cube(shape, fam, wseed, ecs, with_shape=True):
     from ndcube import NDCube
     rng = random.Random(wseed)
-    wcs = W.make_wcs(rng, tuple(shape), fam, True)
+    wcs = W.make_wcs(rng, tuple(shape), fam, with_shape)
     cube = NDCube(C.payload(tuple(shape), 0), wcs=wcs)
     return add_ecs(cube, ecs, list(shape))
 
